@@ -569,3 +569,58 @@ def surviving(m, strategy):
         elif strategy == "warning":
             drop.update(idx[1:])
     return [i for i in range(len(lines)) if i not in drop]
+
+
+# -- ids shaped like the names a collision-rename would produce ('<id>_<k>') ------------------------------------------------
+def make_rename_shaped(rng, m):
+    """Rename ids of a model() so that they look like the names handed out when a key collides ('<key>_1', '<key>_2', ...):
+    the transcripts of a gene X that has a gene line of its own become X_1, X_2, ... (in order of appearance; such transcripts
+    keep their subfeature and other lines but get no transcript line of their own, so with inference on they are DERIVED
+    features); a gene without a line of its own one of whose transcripts T has a transcript line becomes 'T_1' (7 of 10).
+    Lines are re-tagged.  Returns {"transcripts": [...new ids], "genes": [...new ids]} or None when nothing was renamed."""
+    lines, tkey, gkey = m["lines"], m["tkey"], m["gkey"]
+
+    def val(rec, key):
+        for k, v in rec["attrs"]:
+            if k == key:
+                return v[0] if v else None
+        return None
+
+    gene_lines = {val(r, gkey) for r in lines if r["featuretype"] == "gene"}
+    tx_lines = {val(r, tkey) for r in lines if r["featuretype"] == "transcript"}
+    tx_of_gene = {}
+    for r in lines:
+        t, g = val(r, tkey), val(r, gkey)
+        if t is not None and g is not None and r["featuretype"] != "gene":
+            tx_of_gene.setdefault(g, [])
+            if t not in tx_of_gene[g]:
+                tx_of_gene[g].append(t)
+    map_t, map_g = {}, {}
+    for g, tids in tx_of_gene.items():
+        if g in gene_lines:
+            tids = list(tids)
+            if rng.random() < 0.3:
+                rng.shuffle(tids)
+            for k, t in enumerate(tids):
+                map_t[t] = "%s_%d" % (g, k + 1)
+        else:
+            own = [t for t in tids if t in tx_lines]
+            if own and rng.random() < 0.7:
+                map_g[g] = "%s_1" % own[0]
+    if not map_t and not map_g:
+        return None
+    kept = []
+    for r in lines:
+        if r["featuretype"] == "transcript" and val(r, tkey) in map_t:
+            continue          # no transcript line for a transcript named '<gene id>_<k>': it is a derived feature
+        for pair in r["attrs"]:
+            if pair[0] == tkey and pair[1]:
+                pair[1] = [map_t.get(x, x) for x in pair[1]]
+            elif pair[0] == gkey and pair[1]:
+                pair[1] = [map_g.get(x, x) for x in pair[1]]
+        kept.append(r)
+    for n, r in enumerate(kept):
+        r["attrs"] = [p for p in r["attrs"] if p[0] != "tag"] + [["tag", ["L%d" % n]]]
+    m["lines"] = kept
+    m["rename_shaped"] = {"transcripts": sorted(map_t.values()), "genes": sorted(map_g.values())}
+    return m["rename_shaped"]
